@@ -224,7 +224,11 @@ static void cb_parse_free(void *p) {
   LibExit x;
   step();
   C.callbacks++;
-  if (!p) { C.n_free_null++; return; }
+  if (!p) { // NULL is no block returned by parse_alloc, and a caller's parse_free need not accept it
+    C.n_free_null++;
+    C.tviol.push_back("parse_free called with NULL");
+    return;
+  }
   auto it = C.tblocks.find(p);
   if (it == C.tblocks.end()) {
     C.tviol.push_back("parse_free of a block that is not live (never allocated by parse_alloc, or already freed)");
@@ -633,7 +637,7 @@ struct Exec {
     // the library left through exit() (j==1), the step budget (j==2) or an exception (j==3)
     if (j == 3) {
       bool newfault = heap_cur().new_fault_fired;
-      viol("C17", "bad_alloc_escapes", kOpShort[op.kind],
+      viol("C17", newfault ? "bad_alloc_escapes" : "exception_escapes", kOpShort[op.kind],
            newfault ? "std::bad_alloc thrown by operator new inside the C++ library escaped from the API call"
                     : "an exception escaped from the API call",
            false);
